@@ -217,6 +217,20 @@ func generate(cfg *config, prop string) (*genOutput, error) {
 	}
 	out.prelude = u.Prelude(prog.Specs) + specText
 	out.reveal = u.Reveal
+	// vacuity canary: the axioms and revealed definitions must be consistent
+	{
+		var b strings.Builder
+		var names []string
+		for n := range u.Reveal {
+			names = append(names, n)
+		}
+		sort.Strings(names)
+		for _, n := range names {
+			b.WriteString(u.Reveal[n])
+		}
+		out.obls = append(out.obls, &vc.Obligation{Name: "prelude#cover.axioms_consistent", Func: "prelude", Kind: "cover",
+			Label: "axioms_consistent", Cover: true, Script: b.String(), Relaxed: "", Props: []string{prop}, FullCover: true})
+	}
 	out.relaxed = vc.RelaxPrelude(out.prelude, u.RelaxDef)
 	out.genS = time.Since(t1).Seconds()
 	// trusted contracts actually used
@@ -248,6 +262,11 @@ func solveAll(g *genOutput, obls []*vc.Obligation, timeout time.Duration) []oblR
 			defer wg.Done()
 			for i := range ch {
 				o := obls[i]
+				if o.Cover && o.FullCover {
+					// axioms (quantified) must not be contradictory: unsat = broken
+					res[i] = oblResult{o, smt.Solve(g.prelude+o.Script, 5*time.Second)}
+					continue
+				}
 				if o.Cover {
 					// vacuity guard: quantifier-free relaxation, short time-out;
 					// only "unsat" (nothing reaches this point) counts as failure
@@ -496,6 +515,9 @@ func cmdCheck(args []string) int {
 			confirmed := false
 			if r.R.Candidate {
 				info["model"] = trimModel(r.R.Model, r.O.ModelOf)
+			}
+			if r.R.Candidate || r.O.Replay != "" {
+				// with a candidate model, or a scenario template that needs none
 				confirmed = tryReplay(*prop, r.O, r.R, info)
 			}
 			report(r.O.Name, info, confirmed)
